@@ -128,7 +128,7 @@ ALL_MENU = (
     "ins:raise", "ins:probe", "ins:res", "ins:mkitem", "ins:mkchild", "ins:sync", "ins:iv", "ins:yempty", "ins:ynone",
     "wrap:try", "wrap:A", "wrap:N", "wrap:S0", "wrap:S1", "wrap:P0", "wrap:Xp", "wrap:Xr", "wrap:Xq",
     "flush:raise", "flush:raiseB", "flush:new", "flush:setraise", "flush:nested",
-    "leaf:dd", "ins:ddirty", "item:errf", "ins:caught", "leaf:cw", "wrap:ovl", "leaf:bt", "ins:cancel",
+    "leaf:dd", "ins:ddirty", "item:errf", "ins:caught", "leaf:cw", "wrap:ovl", "leaf:bt", "ins:cancel", "leaf:dd1",
 )
 DD_ALTS = (("f", 1, "pos"), ("f", 1, "kw"), ("f", 1, "def"), ("f", 2, "pos"), ("g", 1, "pos"),
            ("mx", 1, "pos"), ("mx", 1, "mix"), ("my", 1, "pos"), ("s", 1, "pos"), ("sx", 1, "def"), ("h", 1, "pos"),
@@ -350,6 +350,8 @@ def _struct_variants(s, ctx, allow_shared, made, top):
         if "leaf:dd" in menu:
             for a in DD_ALTS:
                 yield ("dd",) + a, None
+        elif "leaf:dd1" in menu:
+            yield ("dd",) + DD_ALTS[0], None  # one fixed call: lets larger programs be reached
         if "leaf:sh" in menu and allow_shared:
             if ctx["shared"]:
                 yield ("sh", 0), None
